@@ -795,6 +795,263 @@ func checkEscaped(e entry) {
 	drv.Stat("escaped_static_requests", evals)
 }
 
+// canonNonASCII spells every byte >= 0x80 as an upper-case escape: together with refNormalize this is
+// the one form in which templates and requests written with literal or escaped non-ASCII text compare.
+func canonNonASCII(s string) string {
+	var sb strings.Builder
+	for i := 0; i < len(s); i++ {
+		if s[i] >= 0x80 {
+			fmt.Fprintf(&sb, "%%%02X", s[i])
+		} else {
+			sb.WriteByte(s[i])
+		}
+	}
+	return sb.String()
+}
+
+func hasNonASCII(s string) bool {
+	for i := 0; i < len(s); i++ {
+		if s[i] >= 0x80 {
+			return true
+		}
+	}
+	return false
+}
+
+// checkNonASCII: templates whose static text is written with literal non-ASCII characters (possibly
+// right behind a parameter, where the router searches for the first byte of that text).  Every
+// spelling of an instance - each non-ASCII character of the static text literal, as upper-case and as
+// lower-case escapes; parameter values plain, with a literal / escaped non-ASCII character, and with
+// a character that shares its first byte with the text behind the parameter - must be served by that
+// template (or a more specific matching one) with the decoded values; a path that differs from every
+// template in one non-ASCII character must not be served; FindPath agrees.
+func checkNonASCII(e entry) {
+	var gotOp string
+	var gotParams map[string]string
+	mw := func(req middleware.Request, next middleware.Next) (middleware.Response, error) {
+		gotOp = req.OperationName
+		gotParams = map[string]string{}
+		for k, v := range req.Params {
+			if s, ok := v.(string); ok {
+				gotParams[k.Name] = s
+			}
+		}
+		return middleware.Response{}, fmt.Errorf("stop")
+	}
+	n := len(e.templates)
+	parsed := make([][]part, n)  // as written
+	canon := make([][]part, n)   // non-ASCII bytes as upper-case escapes
+	tailRunes := map[rune]bool{} // characters that directly follow a parameter somewhere in the set
+	for i, t := range e.templates {
+		parsed[i] = parseT(t)
+		for j, p := range parsed[i] {
+			cp := p
+			cp.static = canonNonASCII(p.static)
+			canon[i] = append(canon[i], cp)
+			if p.param != "" && j+1 < len(parsed[i]) && parsed[i][j+1].static != "" {
+				for _, r := range parsed[i][j+1].static {
+					tailRunes[r] = true
+					break
+				}
+			}
+		}
+	}
+	// parameter values (as spelled in the request)
+	type val struct {
+		spelled string
+		lead    bool // holds a character sharing its first byte with a tail character, but not that character
+	}
+	vals := []val{{"val", false}, {"v\u0436", false}, {"v%D0%B6", false}, {"v%d0%b6", false}, {"v%2Fw", false}}
+	for r := range tailRunes {
+		if r >= 0x80 && !tailRunes[r+1] {
+			vals = append(vals, val{"v" + string(r+1), true}) // U+00E9 -> U+00EA, same first byte
+		}
+	}
+	sort.Slice(vals, func(i, j int) bool { return vals[i].spelled < vals[j].spelled })
+	srv, findPath := e.mk(mw, "")
+	var evals int64
+	judge := func(target string, ti int, lead bool, staticSpelling string, nearMiss bool) {
+		u, err := url.ParseRequestURI(target)
+		if err != nil {
+			return
+		}
+		evals++
+		norm, ok := refNormalize(canonNonASCII(target))
+		if !ok {
+			return
+		}
+		var strictM []int
+		for i := range canon {
+			if len(matches(canon[i], norm, nil)) > 0 {
+				strictM = append(strictM, i)
+			}
+		}
+		o := serve(srv, "GET", "http://x"+target, &gotOp, &gotParams)
+		attrs := map[string]string{
+			"static_text_spelling":              staticSpelling,
+			"rawpath_set":                       fmt.Sprint(u.RawPath != ""),
+			"value_shares_first_byte_with_tail": fmt.Sprint(lead),
+		}
+		k := kase{Templates: e.templates, Method: "GET", Path: target}
+		k.Observed = fmt.Sprintf("status=%d op=%q args=%v panic=%q (URL.Path=%q RawPath=%q)", o.status, o.op, o.params, o.pan, u.Path, u.RawPath)
+		viol := func(class, expected string) {
+			a := map[string]string{"class": class}
+			for kk, v := range attrs {
+				a[kk] = v
+			}
+			k.Expected = expected
+			drv.Violation(a, len(target)+10*len(e.templates), k)
+		}
+		switch {
+		case o.pan != "":
+			viol("router-panic", "no panic")
+		case len(strictM) == 0:
+			if o.reached != -1 {
+				viol("S4-non-ascii-near-miss-served", "404: the path matches no template")
+			}
+		case nearMiss:
+			// a near miss that happens to be an instance of another template: only consistency
+			if o.reached >= 0 && !has2(strictM, o.reached) {
+				viol("S1-non-ascii-template-with-args-differs-from-path", "a template that matches the path")
+			}
+		default:
+			switch {
+			case o.reached < 0:
+				viol("S3-instance-of-non-ascii-template-not-served", fmt.Sprintf("template %s (or a more specific one)", e.templates[ti]))
+			case !has2(strictM, o.reached):
+				viol("S1-non-ascii-template-with-args-differs-from-path", "a template that matches the path")
+			case o.reached != ti && !moreSpecificOrEqual(e.templates[ti], e.templates[o.reached]):
+				viol("S3-less-specific-template-served/non-ascii", fmt.Sprintf("template %s (or a more specific one)", e.templates[ti]))
+			default:
+				// arguments: decoded forms of one strict match
+				var obsArgs []string
+				for _, p := range parsed[o.reached] {
+					if p.param != "" {
+						obsArgs = append(obsArgs, o.params[p.param])
+					}
+				}
+				okArgs := false
+				for _, cand := range matches(canon[o.reached], norm, nil) {
+					dec := make([]string, len(cand))
+					for i, c := range cand {
+						dec[i], _ = url.PathUnescape(c)
+					}
+					if strings.Join(dec, "\x00") == strings.Join(obsArgs, "\x00") {
+						okArgs = true
+					}
+				}
+				if !okArgs {
+					viol("S1-non-ascii-arguments-differ-from-path", "the decoded values of the request")
+				}
+			}
+		}
+		name, _, okF := findPath("GET", u)
+		if okF != (o.reached != -1) || (okF && o.reached >= 0 && name != o.op) {
+			viol("S6-FindPath-disagrees-with-ServeHTTP/non-ascii", fmt.Sprintf("FindPath ok=%v name=%q", okF, name))
+		}
+	}
+	for ti, t := range e.templates {
+		type sp struct{ text, how string }
+		spell := []sp{{"", ""}}
+		miss := map[string]bool{}
+		rest := t
+		addAlts := func(alts []sp) {
+			var next []sp
+			for _, s0 := range spell {
+				for _, a := range alts {
+					how := s0.how
+					if a.how != "" && !strings.Contains(how, a.how) {
+						how += a.how
+					}
+					next = append(next, sp{s0.text + a.text, how})
+				}
+			}
+			spell = next
+			if len(spell) > 4096 {
+				spell = spell[:4096]
+			}
+		}
+		pos := 0
+		type missAt struct {
+			at  int
+			alt string
+		}
+		for rest != "" {
+			switch {
+			case rest[0] == '{':
+				j := strings.IndexByte(rest, '}')
+				var alts []sp
+				for _, v := range vals {
+					h := ""
+					if v.lead {
+						h = "L"
+					}
+					alts = append(alts, sp{v.spelled, h})
+				}
+				addAlts(alts)
+				rest = rest[j+1:]
+			case rest[0] >= 0x80:
+				var r rune
+				var size int
+				for i, rr := range rest {
+					if i == 0 {
+						r = rr
+						size = len(string(rr))
+					}
+					break
+				}
+				lit := rest[:size]
+				up := canonNonASCII(lit)
+				addAlts([]sp{{lit, "l"}, {up, "u"}, {strings.ToLower(up), "w"}})
+				// near miss: this character replaced by its successor
+				miss[t[:pos]+string(r+1)+t[pos+size:]] = true
+				rest = rest[size:]
+				pos += size
+				continue
+			default:
+				addAlts([]sp{{rest[:1], ""}})
+				rest = rest[1:]
+			}
+			pos = len(t) - len(rest)
+		}
+		for _, s0 := range spell {
+			how := strings.ReplaceAll(s0.how, "L", "")
+			name := map[string]string{"l": "literal", "u": "upper-case-escapes", "w": "lower-case-escapes"}[how]
+			switch {
+			case how == "":
+				name = "literal" // no non-ASCII static text in this template
+			case name == "":
+				name = "mixed"
+			}
+			judge(s0.text, ti, strings.Contains(s0.how, "L"), name, false)
+		}
+		for m := range miss {
+			// instantiate parameters of the near-miss template with a plain value
+			ps := parseT(m)
+			args := make([]string, nparams(ps))
+			for i := range args {
+				args[i] = "val"
+			}
+			target := inst(ps, args)
+			judge(target, ti, false, "literal", true)
+			judge(canonNonASCII(target), ti, false, "upper-case-escapes", true)
+		}
+	}
+	drv.Eval(evals)
+	drv.NontrivialN(evals)
+	drv.Stat("non_ascii_requests", evals)
+	drv.Stat("non_ascii_route_sets_driven", 1)
+}
+
+func has2(list []int, x int) bool {
+	for _, y := range list {
+		if y == x {
+			return true
+		}
+	}
+	return false
+}
+
 func main() {
 	ch := make(chan entry, len(registry))
 	var wg sync.WaitGroup
@@ -803,15 +1060,21 @@ func main() {
 		go func() {
 			defer wg.Done()
 			for e := range ch {
-				escaped := false
+				escaped, nonASCII := false, false
 				for _, t := range e.templates {
 					if strings.Contains(t, "%") {
 						escaped = true
 					}
+					if hasNonASCII(t) {
+						nonASCII = true
+					}
 				}
-				if escaped {
+				switch {
+				case escaped:
 					checkEscaped(e)
-				} else {
+				case nonASCII:
+					checkNonASCII(e)
+				default:
 					checkEntry(e)
 				}
 			}
